@@ -478,6 +478,137 @@ theorem listFlen_sound (m : Method) (hop : m.isOpaque = false)
 
 end list
 
+/-! ### vector rows -/
+
+section vector
+variable (H : Hash2) (c : Config) (owners : Owners) (views : List ViewDef) (elem : STy) (len : LExpr)
+
+theorem sameSTy_bytes32_nonbasic (elem : STy) (h : sameSTy elem (.bytesN 32) = true) : isBasicS elem = false := by
+  cases elem <;> first | rfl | (simp [sameSTy] at h)
+
+theorem vecSer_sound (hleg : (elem.eval c).Legal) (m : Method) (hop : m.isOpaque = false)
+    (h : vectorMethodOk owners views (.vector elem len) elem len n!"Serialize" m = true) :
+    vecSer c owners views (specImpl H (elem.eval c)) m = some (encode (.vector (elem.eval c) (len.eval c))) := by
+  cases m <;> simp only [vectorMethodOk, Method.isOpaque] at h hop <;> (try (simp at hop)) <;> try (simp [lengthMethodOk] at h)
+  case vector variant size length =>
+    obtain ⟨s, hs, hl⟩ := sizeOk_sound c owners views elem hleg size h.1.2
+    simp [vecSer, hs, seqSer_vector H _ (len.eval c) s hl]
+  case list variant size limit =>
+    obtain ⟨s, hs, hl⟩ := sizeOk_sound c owners views elem hleg size h.2
+    simp [vecSer, hs, seqSer_vector H _ (len.eval c) s hl]
+
+theorem vecDes_sound (hleg : (elem.eval c).Legal) (m : Method) (hop : m.isOpaque = false)
+    (h : vectorMethodOk owners views (.vector elem len) elem len n!"Deserialize" m = true) :
+    vecDes c owners views (specImpl H (elem.eval c)) m = some (decode (.vector (elem.eval c) (len.eval c))) := by
+  cases m <;> simp only [vectorMethodOk, Method.isOpaque] at h hop <;> (try (simp at hop)) <;> try (simp [lengthMethodOk] at h)
+  case vector variant size length =>
+    obtain ⟨s, hs, hl⟩ := sizeOk_sound c owners views elem hleg size h.1.2
+    cases length with
+    | none => simp at h
+    | some l =>
+      have hlen := sameLen_sound l len (by simpa using h.2) c
+      simp [vecDes, hs, hlen, vectorDes_spec H _ (len.eval c) s hl]
+
+theorem vecRoot_sound (m : Method) (hop : m.isOpaque = false)
+    (h : vectorMethodOk owners views (.vector elem len) elem len n!"HashTreeRoot" m = true) :
+    ∃ r, vecRoot H c (specImpl H (elem.eval c)) m = some r ∧
+      ∀ v, WF (.vector (elem.eval c) (len.eval c)) v → r v = htr H (.vector (elem.eval c) (len.eval c)) v := by
+  cases m <;> simp only [vectorMethodOk, Method.isOpaque] at h hop <;> (try (simp at hop)) <;> try (simp [lengthMethodOk] at h)
+  case vector variant size length =>
+    obtain ⟨hlenOk, hv⟩ := h
+    have hnb : ∀ (_ : isBasicS elem = false) (v : Val), WF (.vector (elem.eval c) (len.eval c)) v →
+        (match length with
+          | some l => complexVectorRoot H (specImpl H (elem.eval c)) (l.eval c)
+          | none => complexVectorRootLen H (specImpl H (elem.eval c))) v = htr H (.vector (elem.eval c) (len.eval c)) v := by
+      intro hb v hw
+      have hbe : (elem.eval c).isBasic = false := by rw [isBasicS_eval]; exact hb
+      cases length with
+      | some l =>
+        have hl := sameLen_sound l len (by simpa using hlenOk) c
+        simp only [hl, complexVectorRoot_spec H _ _ hbe]
+      | none =>
+        cases v <;> simp only [WF] at hw
+        simp [complexVectorRootLen, htr, hbe, specImpl, hw.1]
+    rcases hv with (⟨hvar, hb⟩ | ⟨hvar, he⟩) | ⟨hvar, he⟩
+    · subst hvar
+      refine ⟨_, ?_, hnb (by simpa using hb)⟩
+      simp [vecRoot]
+      rfl
+    · subst hvar
+      have := sameSTy_uint elem 8 he
+      subst this
+      refine ⟨(match length with
+          | some l => uintVectorRoot H (specImpl H ((STy.uint 8).eval c)) 8 (l.eval c)
+          | none => uintVectorRootLen H (specImpl H ((STy.uint 8).eval c)) 8), by simp [vecRoot]; rfl, ?_⟩
+      intro v hw
+      cases length with
+      | some l =>
+        have hl := sameLen_sound l len (by simpa using hlenOk) c
+        simp only [hl, STy.eval, uintVectorRoot_spec H (.uint 8) 8 _ rfl rfl]
+      | none =>
+        cases v <;> simp only [STy.eval, WF] at hw
+        simp [uintVectorRootLen, htr, Ty.isBasic, specImpl, hw.1, STy.eval, Ty.fixedLen, Ty.fixedLen?]
+    · subst hvar
+      refine ⟨_, ?_, hnb (sameSTy_bytes32_nonbasic elem he)⟩
+      simp [vecRoot]
+      rfl
+
+theorem vecFlen_sound (m : Method) (hop : m.isOpaque = false)
+    (h : vectorMethodOk owners views (.vector elem len) elem len n!"FixedLength" m = true) :
+    denoteLen c owners views m = some (Ty.vector (elem.eval c) (len.eval c)).fixedLen := by
+  have hl : lengthMethodOk owners views (.vector elem len) true m = true := by
+    cases m <;> simp only [vectorMethodOk, Method.isOpaque] at h hop <;> (try (simp at hop)) <;> (try (simp at h; done))
+    all_goals simpa using h
+  cases hf : fixedLenS (.vector elem len) with
+  | some s =>
+    rw [denoteLen_fixed c owners views _ true m s hf hl]
+    have := fixedLenS_some c _ s hf
+    simp only [STy.eval] at this
+    simp [Ty.fixedLen, this]
+  | none =>
+    rw [denoteLen_variable c owners views _ m hf hl]
+    have := fixedLenS_none c _ hf
+    simp only [STy.eval] at this
+    simp [Ty.fixedLen, this]
+
+theorem vecBlen_sound (hleg : (elem.eval c).Legal) (m : Method) (hop : m.isOpaque = false)
+    (h : vectorMethodOk owners views (.vector elem len) elem len n!"ByteLength" m = true) :
+    ∃ f, vecBlen c owners views m = some f ∧
+      ∀ v, WF (.vector (elem.eval c) (len.eval c)) v → f v = byteLength (.vector (elem.eval c) (len.eval c)) v := by
+  by_cases hlt : ∃ size, m = .lenTimes size
+  · obtain ⟨size, rfl⟩ := hlt
+    simp only [vectorMethodOk, Bool.and_eq_true, beq_self_eq_true, true_and] at h
+    obtain ⟨s, hs, hl⟩ := sizeOk_sound c owners views elem hleg (some size) h.2
+    obtain ⟨n, hn⟩ := isFixedS_eval c elem h.1
+    refine ⟨lenTimesFn s, by simp [vecBlen, hs], ?_⟩
+    intro v hw
+    cases v <;> simp only [WF] at hw
+    rw [hn] at hl
+    have : s = n := by
+      unfold sizeLayout at hl
+      split at hl <;> simp_all
+    simp [lenTimesFn, byteLength, hn, this, hw.1]
+  · have hl : lengthMethodOk owners views (.vector elem len) false m = true := by
+      cases m <;> simp only [vectorMethodOk, Method.isOpaque] at h hop <;> (try (simp at hop)) <;> (try (simp at h; done))
+      case lenTimes size => exact absurd ⟨size, rfl⟩ hlt
+      all_goals simpa using h
+    cases hf : fixedLenS (.vector elem len) with
+    | some s =>
+      have hd := denoteLen_fixed c owners views _ false m s hf hl
+      have hfix := fixedLenS_some c _ s hf
+      simp only [STy.eval] at hfix
+      refine ⟨fun _ => s.eval c, ?_, fun v hw => (byteLength_fixed _ _ v hfix hw).symm⟩
+      cases m <;> simp only [vecBlen, hd, Option.map_some] <;> exact absurd ⟨_, rfl⟩ hlt
+    | none =>
+      exfalso
+      cases m <;> simp [lengthMethodOk, hf] at hl
+      case typeByteLength v =>
+        cases hv : viewSTy owners views viewFuel v with
+        | none => simp [hv] at hl
+        | some t => cases hft : fixedLenS t <;> simp [hv, hft] at hl
+
+end vector
+
 theorem extract_struct (owners : Owners) (views : List ViewDef) (T : GoType) (sfs : SFields) (fields : List GoField)
     (h : checkType owners views T = none)
     (hschema : Spec.lookup T.name = some (.container sfs)) (hdecl : T.decl = .struct fields) :
@@ -513,6 +644,138 @@ theorem extract_list (owners : Owners) (views : List ViewDef) (T : GoType) (elem
     listMethodOk owners views (.list elem lim) elem lim n!"ByteLength" T.byteLength = true ∧
     listMethodOk owners views (.list elem lim) elem lim n!"FixedLength" T.fixedLength = true ∧
     listMethodOk owners views (.list elem lim) elem lim n!"HashTreeRoot" T.hashTreeRoot = true := by
+  unfold checkType at h
+  simp only [hschema] at h
+  split at h
+  · simp at h
+  · split at h
+    · simp at h
+    · simp only [Option.map_eq_none_iff, List.find?_eq_none] at h
+      have h1 := h (n!"Deserialize", "Deserialize", T.deserialize) (by simp)
+      have h2 := h (n!"Serialize", "Serialize", T.serialize) (by simp)
+      have h3 := h (n!"ByteLength", "ByteLength", T.byteLength) (by simp)
+      have h4 := h (n!"FixedLength", "FixedLength", T.fixedLength) (by simp)
+      have h5 := h (n!"HashTreeRoot", "HashTreeRoot", T.hashTreeRoot) (by simp)
+      exact ⟨by simpa using h1, by simpa using h2, by simpa using h3, by simpa using h4, by simpa using h5⟩
+
+theorem extract_vector (owners : Owners) (views : List ViewDef) (T : GoType) (elem : STy) (len : LExpr)
+    (h : checkType owners views T = none)
+    (hschema : Spec.lookup T.name = some (.vector elem len)) :
+    vectorMethodOk owners views (.vector elem len) elem len n!"Deserialize" T.deserialize = true ∧
+    vectorMethodOk owners views (.vector elem len) elem len n!"Serialize" T.serialize = true ∧
+    vectorMethodOk owners views (.vector elem len) elem len n!"ByteLength" T.byteLength = true ∧
+    vectorMethodOk owners views (.vector elem len) elem len n!"FixedLength" T.fixedLength = true ∧
+    vectorMethodOk owners views (.vector elem len) elem len n!"HashTreeRoot" T.hashTreeRoot = true := by
+  unfold checkType at h
+  simp only [hschema] at h
+  split at h
+  · simp at h
+  · split at h
+    · simp at h
+    · simp only [Option.map_eq_none_iff, List.find?_eq_none] at h
+      have h1 := h (n!"Deserialize", "Deserialize", T.deserialize) (by simp)
+      have h2 := h (n!"Serialize", "Serialize", T.serialize) (by simp)
+      have h3 := h (n!"ByteLength", "ByteLength", T.byteLength) (by simp)
+      have h4 := h (n!"FixedLength", "FixedLength", T.fixedLength) (by simp)
+      have h5 := h (n!"HashTreeRoot", "HashTreeRoot", T.hashTreeRoot) (by simp)
+      exact ⟨by simpa using h1, by simpa using h2, by simpa using h3, by simpa using h4, by simpa using h5⟩
+
+theorem extract_bitlist (owners : Owners) (views : List ViewDef) (T : GoType) (lim : LExpr)
+    (h : checkType owners views T = none)
+    (hschema : Spec.lookup T.name = some (.bitlist lim)) :
+    bitsMethodOk owners views (.bitlist lim) n!"bitlist" lim n!"Deserialize" T.deserialize = true ∧
+    bitsMethodOk owners views (.bitlist lim) n!"bitlist" lim n!"Serialize" T.serialize = true ∧
+    bitsMethodOk owners views (.bitlist lim) n!"bitlist" lim n!"ByteLength" T.byteLength = true ∧
+    bitsMethodOk owners views (.bitlist lim) n!"bitlist" lim n!"FixedLength" T.fixedLength = true ∧
+    bitsMethodOk owners views (.bitlist lim) n!"bitlist" lim n!"HashTreeRoot" T.hashTreeRoot = true := by
+  unfold checkType at h
+  simp only [hschema] at h
+  split at h
+  · simp at h
+  · split at h
+    · simp at h
+    · simp only [Option.map_eq_none_iff, List.find?_eq_none] at h
+      have h1 := h (n!"Deserialize", "Deserialize", T.deserialize) (by simp)
+      have h2 := h (n!"Serialize", "Serialize", T.serialize) (by simp)
+      have h3 := h (n!"ByteLength", "ByteLength", T.byteLength) (by simp)
+      have h4 := h (n!"FixedLength", "FixedLength", T.fixedLength) (by simp)
+      have h5 := h (n!"HashTreeRoot", "HashTreeRoot", T.hashTreeRoot) (by simp)
+      exact ⟨by simpa using h1, by simpa using h2, by simpa using h3, by simpa using h4, by simpa using h5⟩
+
+theorem extract_bitvector (owners : Owners) (views : List ViewDef) (T : GoType) (lim : LExpr)
+    (h : checkType owners views T = none)
+    (hschema : Spec.lookup T.name = some (.bitvector lim)) :
+    bitsMethodOk owners views (.bitvector lim) n!"bitvector" lim n!"Deserialize" T.deserialize = true ∧
+    bitsMethodOk owners views (.bitvector lim) n!"bitvector" lim n!"Serialize" T.serialize = true ∧
+    bitsMethodOk owners views (.bitvector lim) n!"bitvector" lim n!"ByteLength" T.byteLength = true ∧
+    bitsMethodOk owners views (.bitvector lim) n!"bitvector" lim n!"FixedLength" T.fixedLength = true ∧
+    bitsMethodOk owners views (.bitvector lim) n!"bitvector" lim n!"HashTreeRoot" T.hashTreeRoot = true := by
+  unfold checkType at h
+  simp only [hschema] at h
+  split at h
+  · simp at h
+  · split at h
+    · simp at h
+    · simp only [Option.map_eq_none_iff, List.find?_eq_none] at h
+      have h1 := h (n!"Deserialize", "Deserialize", T.deserialize) (by simp)
+      have h2 := h (n!"Serialize", "Serialize", T.serialize) (by simp)
+      have h3 := h (n!"ByteLength", "ByteLength", T.byteLength) (by simp)
+      have h4 := h (n!"FixedLength", "FixedLength", T.fixedLength) (by simp)
+      have h5 := h (n!"HashTreeRoot", "HashTreeRoot", T.hashTreeRoot) (by simp)
+      exact ⟨by simpa using h1, by simpa using h2, by simpa using h3, by simpa using h4, by simpa using h5⟩
+
+theorem extract_byteList (owners : Owners) (views : List ViewDef) (T : GoType) (lim : LExpr)
+    (h : checkType owners views T = none)
+    (hschema : Spec.lookup T.name = some (.byteList lim)) :
+    bitsMethodOk owners views (.byteList lim) n!"bytelist" lim n!"Deserialize" T.deserialize = true ∧
+    bitsMethodOk owners views (.byteList lim) n!"bytelist" lim n!"Serialize" T.serialize = true ∧
+    bitsMethodOk owners views (.byteList lim) n!"bytelist" lim n!"ByteLength" T.byteLength = true ∧
+    bitsMethodOk owners views (.byteList lim) n!"bytelist" lim n!"FixedLength" T.fixedLength = true ∧
+    bitsMethodOk owners views (.byteList lim) n!"bytelist" lim n!"HashTreeRoot" T.hashTreeRoot = true := by
+  unfold checkType at h
+  simp only [hschema] at h
+  split at h
+  · simp at h
+  · split at h
+    · simp at h
+    · simp only [Option.map_eq_none_iff, List.find?_eq_none] at h
+      have h1 := h (n!"Deserialize", "Deserialize", T.deserialize) (by simp)
+      have h2 := h (n!"Serialize", "Serialize", T.serialize) (by simp)
+      have h3 := h (n!"ByteLength", "ByteLength", T.byteLength) (by simp)
+      have h4 := h (n!"FixedLength", "FixedLength", T.fixedLength) (by simp)
+      have h5 := h (n!"HashTreeRoot", "HashTreeRoot", T.hashTreeRoot) (by simp)
+      exact ⟨by simpa using h1, by simpa using h2, by simpa using h3, by simpa using h4, by simpa using h5⟩
+
+theorem extract_uint (owners : Owners) (views : List ViewDef) (T : GoType) (k : Nat)
+    (h : checkType owners views T = none)
+    (hschema : Spec.lookup T.name = some (.uint k)) :
+    leafMethodOk owners views (.uint k) n!"Deserialize" T.deserialize = true ∧
+    leafMethodOk owners views (.uint k) n!"Serialize" T.serialize = true ∧
+    leafMethodOk owners views (.uint k) n!"ByteLength" T.byteLength = true ∧
+    leafMethodOk owners views (.uint k) n!"FixedLength" T.fixedLength = true ∧
+    leafMethodOk owners views (.uint k) n!"HashTreeRoot" T.hashTreeRoot = true := by
+  unfold checkType at h
+  simp only [hschema] at h
+  split at h
+  · simp at h
+  · split at h
+    · simp at h
+    · simp only [Option.map_eq_none_iff, List.find?_eq_none] at h
+      have h1 := h (n!"Deserialize", "Deserialize", T.deserialize) (by simp)
+      have h2 := h (n!"Serialize", "Serialize", T.serialize) (by simp)
+      have h3 := h (n!"ByteLength", "ByteLength", T.byteLength) (by simp)
+      have h4 := h (n!"FixedLength", "FixedLength", T.fixedLength) (by simp)
+      have h5 := h (n!"HashTreeRoot", "HashTreeRoot", T.hashTreeRoot) (by simp)
+      exact ⟨by simpa using h1, by simpa using h2, by simpa using h3, by simpa using h4, by simpa using h5⟩
+
+theorem extract_bytesN (owners : Owners) (views : List ViewDef) (T : GoType) (e : LExpr)
+    (h : checkType owners views T = none)
+    (hschema : Spec.lookup T.name = some (.bytesN e)) :
+    leafMethodOk owners views (.bytesN e) n!"Deserialize" T.deserialize = true ∧
+    leafMethodOk owners views (.bytesN e) n!"Serialize" T.serialize = true ∧
+    leafMethodOk owners views (.bytesN e) n!"ByteLength" T.byteLength = true ∧
+    leafMethodOk owners views (.bytesN e) n!"FixedLength" T.fixedLength = true ∧
+    leafMethodOk owners views (.bytesN e) n!"HashTreeRoot" T.hashTreeRoot = true := by
   unfold checkType at h
   simp only [hschema] at h
   split at h
